@@ -253,7 +253,10 @@ func streamCodec(c *Ctx) {
 		"code__17", "code_code_17", "code_c0", "code_eco_999", "code_d5", "code_o_e_d_c_3", "code_code_", "_17", "ode_17", "ccode_17", "code_ 17"}
 	for name := range definedNames {
 		texts = append(texts, name, name+"x", name[:len(name)-1], strings.ToUpper(name), "code_"+name)
+		// white space is not part of a name: line terminators, blanks and tabs on either side
+		texts = append(texts, name+"\n", name+"\r\n", name+"\r", "\n"+name, name+"\t", "\t"+name, name+"\x00", name+"\n\n")
 	}
+	texts = append(texts, "code_18\n", "code_18\r\n", "\ncode_18", "code_18\t", "code_\n18", "code_18\x00")
 	for _, t := range texts {
 		codecOp(c, "code.parse "+hx([]byte(t)))
 	}
@@ -274,6 +277,27 @@ func streamCodec(c *Ctx) {
 			t = string(r.Bytes(r.Intn(12)))
 		}
 		codecOp(c, "code.parse "+hx([]byte(t)))
+	}
+	// a unary Connect handler whose *response* cannot be written (the codec refuses it): the
+	// failure is an error like any other - JSON under the HTTP status of its code, never a 200
+	// (round 9, C18-ml)
+	for _, codecName := range []string{"raw", "proto"} {
+		h := connect.NewUnaryHandler("/s/m", func(ctx context.Context, r *connect.Request[[]byte]) (*connect.Response[[]byte], error) {
+			return connect.NewResponse(&[]byte{1, 2, 3}), nil
+		}, connect.WithCodec(refusingCodec{rawCodec{codecName}}))
+		req := httptest.NewRequest(http.MethodPost, "/s/m", strings.NewReader("x"))
+		req.Header.Set("Content-Type", "application/"+codecName)
+		rec := httptest.NewRecorder()
+		desc := "unary Connect handler (codec " + codecName + ") whose response message the codec refuses to marshal"
+		c.Begin(desc)
+		got := safely(func() string {
+			h.ServeHTTP(rec, req)
+			return fmt.Sprintf("status=%d body-has-code=%v", rec.Code, strings.Contains(rec.Body.String(), `"code":"internal"`))
+		})
+		c.Count("http-status-after-failed-send")
+		if got != "status=500 body-has-code=true" {
+			c.Fail("http-status-after-failed-send", desc, got, "a failed unary Connect call has the HTTP status of its code (internal: 500), not 200")
+		}
 	}
 	// --- code -> HTTP (real handler) and HTTP -> code (real clients) ---
 	for n := 0; n <= 64; n++ {
@@ -373,4 +397,11 @@ func streamCodec(c *Ctx) {
 		}
 		codecOp(c, "b64.dec "+hx(b64))
 	}
+}
+
+// refusingCodec unmarshals like rawCodec and refuses to marshal anything.
+type refusingCodec struct{ rawCodec }
+
+func (refusingCodec) Marshal(any) ([]byte, error) {
+	return nil, errors.New("codec: cannot marshal this message")
 }
